@@ -66,6 +66,17 @@ func c12Births(c *ctx) {
 			}
 		}
 	}
+	// births in the ten years before October 1582 on the day numbers that month lacks (5..14): a start of fortune
+	// "birth + years + months" can land on them
+	for y := 1572; y <= 1582; y++ {
+		for mo := 1; mo <= 12; mo++ {
+			for d := 5; d <= 14; d++ {
+				if (y*12+mo+d)%3 == int(c.seed%3) || c.tier == "thorough" {
+					add(y, mo, d, 43200)
+				}
+			}
+		}
+	}
 	fixed := len(births)
 	for len(births) < fixed+n {
 		y := 1 + c.rng.Intn(9990)
